@@ -68,7 +68,9 @@ CLOCK_PATCHES = {
     "datastoreset.go": [("float64(time.Now().Unix()-MinFullScanInterval)", "float64(verifNow().Unix()-MinFullScanInterval)", 1),
                         ('time.Now().Format("4")', 'verifNow().Format("4")', 1)],
     "peer.go": [('time.Now().Format("4")', 'verifNow().Format("4")', 2),
-                ("diff := time.Since(ts)", "diff := verifNow().Sub(ts)", 1)],
+                ("diff := time.Since(ts)", "diff := verifNow().Sub(ts)", 1),
+                # the update loop looks at the clock every 500 ms; the concurrency soak lets virtual time run faster and shortens this
+                ("ticker := time.NewTicker(UpdateLoopTickerInterval)", "ticker := time.NewTicker(verifTickerInterval())", 1)],
 }
 
 
